@@ -16,7 +16,7 @@ From ClapModel Require Import Complete.EngineModel Complete.EngineProofs.
 From ClapModel Require Import Parse.Cmd Parse.Build Parse.Valid Parse.Matcher Parse.Errors Parse.Validator Parse.Parser.
 From ClapModel Require Import ParseProofs.Spelling ParseProofs.Dispatch ParseProofs.ErrorSound.
 From ClapModel Require Import ParseProofs.Actions ParseProofs.ActionsLoop ParseProofs.ActionsTop ParseProofs.Chain ParseProofs.ChainWide.
-From ClapModel Require Import Complete.EngineAccept Complete.EngineLevel Complete.EngineLine.
+From ClapModel Require Import Complete.EngineAccept Complete.EngineLevel Complete.EngineLine Complete.EngineOptState.
 From ClapModel Require ParseProofs.UnparseLift ParseProofs.UnparseProofs ParseProofs.Globals.
 From Coq Require Import ZArith Lia List Bool.
 From RecordUpdate Require Import RecordSet.
@@ -251,6 +251,11 @@ Proof.
 Qed.
 
 (** * The wider items *)
+
+(** no argument of the level accepts hyphen values or negative numbers (a word that looks like an option is one) *)
+Definition hyphen_free (c : cmd) : Prop :=
+  forallb (fun a => negb (a_negnum a) && negb (a_hyphen a)) (c_args c) = true.
+
 Inductive item18 (c : cmd) : list bytes -> (ps -> res ps) -> Prop :=
 | i18_base toks F : item c toks F -> item18 c toks F
 | i18_short_eq tok r ch v a :        (* `-o=v` *)
@@ -281,29 +286,137 @@ Inductive item18 (c : cmd) : list bytes -> (ps -> res ps) -> Prop :=
     a_req_eq a = false -> no_hyphen c -> find_arg c (a_id a) = Some a -> a_num a = Some r ->
     N.of_nat (length vs) < vmax r -> Forall (value_tok c a) vs ->
     no_sub c t -> plain_tok t -> check_terminator a t = true ->
-    item18 c (tok :: vs ++ [t]) (sepm_fn c IShort a vs).
+    item18 c (tok :: vs ++ [t]) (sepm_fn c IShort a vs)
+| i18_long_partial tok f a r vs toks2 F2 :  (* `--opt v1 .. vj` PARTIALLY FILLED (j below the maximum), then another option item *)
+    hyphen_free c ->
+    no_sub c tok -> to_long tok = Some (f, true, None) -> get_long c f = Some a -> a_takes_value a = true ->
+    a_req_eq a = false -> find_arg c (a_id a) = Some a -> a_num a = Some r ->
+    N.of_nat (length vs) < vmax r -> Forall (value_tok c a) vs ->
+    item18 c toks2 F2 ->
+    item18 c (tok :: vs ++ toks2) (fun st => do st' <- sepm_fn c ILong a vs st; F2 st')
+| i18_short_partial tok r0 ch a r vs toks2 F2 : (* `-o v1 .. vj`, then another option item *)
+    hyphen_free c ->
+    no_sub c tok -> is_escape tok = false -> to_long tok = None -> to_short tok = Some r0 ->
+    sf_next r0 = Some (inl ch, []) -> get_short c ch = Some a -> a_takes_value a = true ->
+    a_req_eq a = false -> no_hyphen c -> find_arg c (a_id a) = Some a -> a_num a = Some r ->
+    N.of_nat (length vs) < vmax r -> Forall (value_tok c a) vs ->
+    item18 c toks2 F2 ->
+    item18 c (tok :: vs ++ toks2) (fun st => do st' <- sepm_fn c IShort a vs st; F2 st').
+
+(** every item starts with a word that is lexed as an exact long key or as a non-empty short cluster *)
+Lemma sf_next_nonempty r x : sf_next r = Some x -> r <> [].
+Proof. intros H ->. cbn in H. discriminate. Qed.
+
+Lemma cluster_token_dash c tok os : no_sub c tok -> cluster_token c tok os -> dash_tok c tok.
+Proof.
+  intros Hns [ch [r [Et [Hne [Hd Hc]]]]]. subst tok.
+  assert (E45 : (ch =? 45) = false) by (apply N.eqb_neq; exact Hne).
+  split; [exact Hns|]. split.
+  - unfold is_escape, DASH. cbn [beq]. rewrite E45. reflexivity.
+  - right. split.
+    + unfold to_long, strip_prefix, DASH. cbn [starts_with]. rewrite E45. reflexivity.
+    + exists (ch :: r). split; [|discriminate].
+      unfold to_short, strip_prefix, DASH. cbn [starts_with length skipn].
+      change ((45 =? 45) && true) with true. cbn iota. cbn [starts_with]. rewrite E45. reflexivity.
+Qed.
+
+Lemma item_head c toks F : item c toks F -> exists t0 ts, toks = t0 :: ts /\ dash_tok c t0.
+Proof.
+  intros Hi. destruct Hi.
+  - exists tok, []. split; [reflexivity|]. split; [assumption|]. split; [eapply to_long_not_escape; eauto|]. left. eauto.
+  - exists tok, []. split; [reflexivity|]. split; [assumption|]. split; [eapply to_long_not_escape; eauto|]. left. eauto.
+  - exists tok, [v]. split; [reflexivity|]. split; [assumption|]. split; [eapply to_long_not_escape; eauto|]. left. eauto.
+  - exists tok, []. split; [reflexivity|]. eapply cluster_token_dash; eauto.
+  - exists tok, []. split; [reflexivity|]. split; [assumption|]. split; [assumption|]. right. split; [assumption|].
+    exists r. split; [assumption|eapply sf_next_nonempty; eauto].
+  - exists tok, [v]. split; [reflexivity|]. split; [assumption|]. split; [assumption|]. right. split; [assumption|].
+    exists r0. split; [assumption|eapply sf_next_nonempty; eauto].
+Qed.
+
+Lemma item18_head c toks F : item18 c toks F -> exists t0 ts, toks = t0 :: ts /\ dash_tok c t0.
+Proof.
+  intros Hi. destruct Hi.
+  - eapply item_head; eauto.
+  - exists tok, []. split; [reflexivity|]. split; [assumption|]. split; [assumption|]. right. split; [assumption|].
+    exists r. split; [assumption|eapply sf_next_nonempty; eauto].
+  - exists tok, vs. split; [reflexivity|]. split; [assumption|]. split; [eapply to_long_not_escape; eauto|]. left. eauto.
+  - exists tok, vs. split; [reflexivity|]. split; [assumption|]. split; [assumption|]. right. split; [assumption|].
+    exists r0. split; [assumption|eapply sf_next_nonempty; eauto].
+  - exists tok, (vs ++ [t]). split; [reflexivity|]. split; [assumption|]. split; [eapply to_long_not_escape; eauto|]. left. eauto.
+  - exists tok, (vs ++ [t]). split; [reflexivity|]. split; [assumption|]. split; [assumption|]. right. split; [assumption|].
+    exists r0. split; [assumption|eapply sf_next_nonempty; eauto].
+  - exists tok, (vs ++ toks2). split; [reflexivity|]. split; [assumption|]. split; [eapply to_long_not_escape; eauto|]. left. eauto.
+  - exists tok, (vs ++ toks2). split; [reflexivity|]. split; [assumption|]. split; [assumption|]. right. split; [assumption|].
+    exists r0. split; [assumption|eapply sf_next_nonempty; eauto].
+Qed.
+
+Lemma hyphen_free_arg c a : hyphen_free c -> find_arg c (a_id a) = Some a -> a_hyphen a = false /\ a_negnum a = false.
+Proof.
+  unfold hyphen_free. intros H Hf. rewrite forallb_forall in H.
+  assert (Hin : In a (c_args c)) by (unfold find_arg in Hf; apply find_some in Hf; tauto).
+  specialize (H a Hin). apply andb_true_iff in H. destruct H as [H1 H2].
+  apply negb_true_iff in H1. apply negb_true_iff in H2. split; assumption.
+Qed.
+
+(** the parser's loop behind a partially filled occurrence of [a], on an item: as between arguments *)
+Lemma loop_partial_then c a toks2 F2 : hyphen_free c -> find_arg c (a_id a) = Some a -> item18 c toks2 F2 ->
+  forall rest pos vaf st, fs_skip st = 0 ->
+  parse_loop c (toks2 ++ rest) (mkL (PSOpt (a_id a)) pos vaf false) st = parse_loop c (toks2 ++ rest) (lsV pos vaf) st.
+Proof.
+  intros Hhf Hf Hi rest pos vaf st Hsk.
+  destruct (item18_head c toks2 F2 Hi) as [t0 [ts [-> Hd]]]. cbn [app].
+  destruct (hyphen_free_arg c a Hhf Hf) as [Hh Hn].
+  exact (loop_opt_dash c t0 a (ts ++ rest) pos vaf st Hf Hh Hn (no_hyphen_of_args c Hhf) Hsk Hd).
+Qed.
+
+Lemma item18_fs c toks F : item18 c toks F -> forall st st', F st = ROk st' -> fs_skip st' = fs_skip st /\ fs_at st' = fs_at st.
+Proof.
+  induction 1 as [toks F Hi| | | | | |tok f a r vs toks2 F2 Hhf Hns Hl Hg Htv Hre Hf Hn Hlen Hall Hi2 IH
+                 |tok r0 ch a r vs toks2 F2 Hhf Hns He Hl Hs Hnx Hg Htv Hre Hnh Hf Hn Hlen Hall Hi2 IH]; intros st st' HF.
+  - split; [eapply item_fs; eauto|eapply item_fsat; eauto].
+  - split; [apply (react_all_fs _ _ _ _ HF)|apply (react_all_fsat _ _ _ _ HF)].
+  - eapply sepm_fn_fs; eauto.
+  - eapply sepm_fn_fs; eauto.
+  - eapply sepm_fn_fs; eauto.
+  - eapply sepm_fn_fs; eauto.
+  - destruct (sepm_fn c ILong a vs st) as [st1|e s1|x] eqn:E; cbn [rbind] in HF; try discriminate.
+    destruct (IH _ _ HF) as [H1 H2]. destruct (sepm_fn_fs _ _ _ _ _ _ E) as [H3 H4]. rewrite H1, H2. split; assumption.
+  - destruct (sepm_fn c IShort a vs st) as [st1|e s1|x] eqn:E; cbn [rbind] in HF; try discriminate.
+    destruct (IH _ _ HF) as [H1 H2]. destruct (sepm_fn_fs _ _ _ _ _ _ E) as [H3 H4]. rewrite H1, H2. split; assumption.
+Qed.
 
 Lemma item18_step c toks F : item18 c toks F -> forall rest pos vaf st, fs_skip st = 0 ->
   parse_loop c (toks ++ rest) (lsV pos vaf) st = (do st' <- F st; parse_loop c rest (lsV pos true) st').
 Proof.
-  intros Hi rest pos vaf st Hfs. destruct Hi; cbn [app].
+  induction 1 as [toks F Hi| | | | | |tok f a r vs toks2 F2 Hhf Hns Hl Hg Htv Hre Hf Hn Hlen Hall Hi2 IH
+                 |tok r0 ch a r vs toks2 F2 Hhf Hns He Hl Hs Hnx Hg Htv Hre Hnh Hf Hn Hlen Hall Hi2 IH];
+    intros rest pos vaf st Hfs; cbn [app].
   - apply item_step; assumption.
   - apply (loop_short_eq c tok r ch v a); assumption.
   - apply (loop_long_multi c tok f a r vs); assumption.
   - apply (loop_short_multi c tok r0 ch a r vs); assumption.
   - apply (loop_long_term c tok f a r vs t); assumption.
   - apply (loop_short_term c tok r0 ch a r vs t); assumption.
-Qed.
-
-Lemma item18_fs c toks F : item18 c toks F -> forall st st', F st = ROk st' -> fs_skip st' = fs_skip st /\ fs_at st' = fs_at st.
-Proof.
-  intros Hi st st' H. destruct Hi.
-  - split; [eapply item_fs; eauto|eapply item_fsat; eauto].
-  - split; [apply (react_all_fs _ _ _ _ H)|apply (react_all_fsat _ _ _ _ H)].
-  - eapply sepm_fn_fs; eauto.
-  - eapply sepm_fn_fs; eauto.
-  - eapply sepm_fn_fs; eauto.
-  - eapply sepm_fn_fs; eauto.
+  - rewrite <- app_assoc.
+    rewrite (loop_long_open c tok f a (vs ++ toks2 ++ rest) pos vaf st Hns Hl Hg Htv Hre).
+    unfold sepm_fn. destruct (resolve_pending c st) as [st1|e s1|x] eqn:RP; cbn [rbind]; try reflexivity.
+    rewrite (loop_values_open c a r Hf Hn vs (toks2 ++ rest) pos true _ (mkPending (a_id a) (Some ILong) [] None) Hall);
+      [|cbn [p_raw length]; lia|reflexivity|reflexivity].
+    cbn [p_raw]. rewrite with_raw_open.
+    assert (Hfs1 : fs_skip (st1 <| mt := (mt st1) <| mt_pending := Some (mkPending (a_id a) (Some ILong) vs None) |> |>) = 0).
+    { cbn. rewrite (resolve_pending_fs c st st1 RP). exact Hfs. }
+    rewrite (loop_partial_then c a toks2 F2 Hhf Hf Hi2 rest pos true _ Hfs1).
+    exact (IH rest pos true _ Hfs1).
+  - rewrite <- app_assoc.
+    rewrite (loop_short_open c tok r0 ch a (vs ++ toks2 ++ rest) pos vaf st Hns He Hl Hs Hnx Hg Htv Hre Hnh Hfs).
+    unfold sepm_fn. destruct (resolve_pending c st) as [st1|e s1|x] eqn:RP; cbn [rbind]; try reflexivity.
+    rewrite (loop_values_open c a r Hf Hn vs (toks2 ++ rest) pos true _ (mkPending (a_id a) (Some IShort) [] None) Hall);
+      [|cbn [p_raw length]; lia|reflexivity|reflexivity].
+    cbn [p_raw]. rewrite with_raw_open.
+    assert (Hfs1 : fs_skip (st1 <| mt := (mt st1) <| mt_pending := Some (mkPending (a_id a) (Some IShort) vs None) |> |>) = 0).
+    { cbn. rewrite (resolve_pending_fs c st st1 RP). exact Hfs. }
+    rewrite (loop_partial_then c a toks2 F2 Hhf Hf Hi2 rest pos true _ Hfs1).
+    exact (IH rest pos true _ Hfs1).
 Qed.
 
 Lemma item18_nonempty c toks F : item18 c toks F -> is_nil toks = false.
@@ -311,13 +424,22 @@ Proof. intros Hi. destruct Hi; try reflexivity. eapply item_nonempty; eauto. Qed
 
 Lemma item18_err c toks F : item18 c toks F -> forall st e s, F st = RErr e s -> reaction_error c e.
 Proof.
-  intros Hi st e s H. destruct Hi.
+  induction 1 as [toks F Hi| | | | | |tok f a r vs toks2 F2 Hhf Hns Hl Hg Htv Hre Hf Hn Hlen Hall Hi2 IH
+                 |tok r0 ch a r vs toks2 F2 Hhf Hns He Hl Hs Hnx Hg Htv Hre Hnh Hf Hn Hlen Hall Hi2 IH]; intros st e s HF.
   - eapply item_err; eauto.
   - eapply react_all_err; eauto.
   - eapply sepm_fn_err; eauto.
   - eapply sepm_fn_err; eauto.
   - eapply sepm_fn_err; eauto.
   - eapply sepm_fn_err; eauto.
+  - destruct (sepm_fn c ILong a vs st) as [st1|e1 s1|x] eqn:E; cbn [rbind] in HF.
+    + eapply IH; eauto.
+    + inversion HF; subst. eapply sepm_fn_err; eauto.
+    + discriminate.
+  - destruct (sepm_fn c IShort a vs st) as [st1|e1 s1|x] eqn:E; cbn [rbind] in HF.
+    + eapply IH; eauto.
+    + inversion HF; subst. eapply sepm_fn_err; eauto.
+    + discriminate.
 Qed.
 
 (** * Engine side *)
@@ -373,10 +495,32 @@ Proof.
     replace (j + 1 + N.of_nat (length t)) with (j + N.of_nat (length (v :: t))) by (cbn [length]; lia). reflexivity.
 Qed.
 
-Lemma eng_item18 toks F pi evaf : item18 pc toks F ->
+(** no positional of the level accepts hyphen values *)
+Lemma hyphen_free_pos pi : hyphen_free pc -> pos_allows_hyphen cur pi = false.
+Proof.
+  unfold hyphen_free, pos_allows_hyphen. intros H. destruct (find_pos cur pi) as [p|] eqn:Ef; [|reflexivity].
+  assert (Hin : In p (c_args pc)).
+  { rewrite (proj1 Hrel). unfold find_pos, positionals in Ef. apply find_some in Ef. destruct Ef as [Hin _].
+    apply filter_In in Hin. tauto. }
+  rewrite forallb_forall in H. specialize (H p Hin). apply andb_true_iff in H. destruct H as [_ H2].
+  apply negb_true_iff in H2. exact H2.
+Qed.
+
+(** the engine's run on an item while the option [a] is pending (any count): as between arguments *)
+Lemma eng_partial_then a k toks2 F2 pi evaf : hyphen_free pc -> find_arg pc (a_id a) = Some a -> item18 pc toks2 F2 ->
+  shadow_run toks2 cur pi false (Opt a k) evaf = shadow_run toks2 cur pi false ValueDone evaf.
+Proof.
+  intros Hhf Hf Hi. destruct (item18_head pc toks2 F2 Hi) as [t0 [ts [-> [Hns [He Hlex]]]]].
+  destruct (hyphen_free_arg pc a Hhf Hf) as [Hh _].
+  cbn [shadow_run]. rewrite (eng_opt_as_vd pc cur L t0 a k pi evaf Hh (hyphen_free_pos pi Hhf) Hns He); [reflexivity|].
+  destruct Hlex as [[f [v [b [Hl _]]]]|[_ [r [Hs _]]]]; [left; rewrite Hl; discriminate|right; rewrite Hs; discriminate].
+Qed.
+
+Lemma eng_item18 toks F : item18 pc toks F -> forall pi evaf,
   shadow_run toks cur pi false ValueDone evaf = SNext cur pi false ValueDone true.
 Proof.
-  intros Hi. destruct Hi.
+  induction 1 as [toks F Hi| | | | | |tok f a r vs toks2 F2 Hhf Hns Hl Hg Htv Hre Hf Hn Hlen Hall Hi2 IH
+                 |tok r0 ch a r vs toks2 F2 Hhf Hns He Hl Hs Hnx Hg Htv Hre Hnh Hf Hn Hlen Hall Hi2 IH]; intros pi evaf.
   - apply (eng_item pc cur L toks F pi evaf). assumption.
   - (* -o=v *) cbn [shadow_run]. rewrite (eng_short_opt pc cur L tok r ch (61 :: v) a pi evaf) by assumption. reflexivity.
   - (* --opt v1 .. vk *) cbn [shadow_run]. rewrite (eng_long pc cur L tok f None a pi evaf) by assumption.
@@ -391,6 +535,13 @@ Proof.
   - (* -o v1 .. vj ; *) cbn [shadow_run]. rewrite (eng_short_opt pc cur L tok r0 ch [] a pi evaf) by assumption. cbn [is_nil].
     rewrite shadow_run_app, (eng_values_open a r pi true) by (try assumption; lia).
     cbn [shadow_run]. rewrite (eng_term_step t a pi _ true) by assumption. reflexivity.
+  - (* --opt v1 .. vj, then an item *) cbn [shadow_run]. rewrite (eng_long pc cur L tok f None a pi evaf Hns Hl Hg), Htv. cbn [is_none andb].
+    rewrite shadow_run_app, (eng_values_open a r pi true Hn vs 1 Hall) by lia.
+    rewrite (eng_partial_then a _ toks2 F2 pi true Hhf Hf Hi2). apply IH.
+  - (* -o v1 .. vj, then an item *) cbn [shadow_run].
+    rewrite (eng_short_opt pc cur L tok r0 ch [] a pi evaf Hns He Hl Hs Hnx Hg Htv). cbn [is_nil].
+    rewrite shadow_run_app, (eng_values_open a r pi true Hn vs 1 Hall) by lia.
+    rewrite (eng_partial_then a _ toks2 F2 pi true Hhf Hf Hi2). apply IH.
 Qed.
 End EngineItems18.
 
@@ -687,5 +838,5 @@ Theorem state_agreement_item18 pc cur toks F : elevel pc cur -> item18 pc toks F
   (forall rest pos vaf st, fs_skip st = 0 ->
      parse_loop pc (toks ++ rest) (lsV pos vaf) st = (do st' <- F st; parse_loop pc rest (lsV pos true) st')).
 Proof.
-  intros L Hi. split; [intros pi vaf; exact (eng_item18 pc cur L toks F pi vaf Hi)|exact (item18_step pc toks F Hi)].
+  intros L Hi. split; [intros pi vaf; exact (eng_item18 pc cur L toks F Hi pi vaf)|exact (item18_step pc toks F Hi)].
 Qed.
